@@ -18,11 +18,13 @@ REQUIRED = {
     "quick": {"index_values_checked": 12000, "fundamental_index_checked": 2000, "class/unequal_shares_run": 40,
               "class/component_shock_run": 10, "class/component_prices_moved_run": 30,
               "class/duplicate_component_refused": 4, "class/component_without_shares_refused": 4,
-              "class/arbitrageur_full_access_run": 4, "class/arbitrageur_partial_access_run": 4},
+              "class/arbitrageur_full_access_run": 4, "class/arbitrageur_partial_access_run": 4,
+              "class/shock_on_component_of_an_index_with_static_fundamentals": 6},
     "thorough": {"index_values_checked": 600000, "fundamental_index_checked": 60000, "class/unequal_shares_run": 1200,
                  "class/component_shock_run": 300, "class/component_prices_moved_run": 900,
                  "class/duplicate_component_refused": 150, "class/component_without_shares_refused": 150,
-                 "class/arbitrageur_full_access_run": 120, "class/arbitrageur_partial_access_run": 120},
+                 "class/arbitrageur_full_access_run": 120, "class/arbitrageur_partial_access_run": 120,
+                 "class/shock_on_component_of_an_index_with_static_fundamentals": 200},
 }
 
 
@@ -93,7 +95,14 @@ def gen_case(rng, tier, idx):
                         "fundChanges": [{"time": t_ch, "at_market": comps[0], "market": rng.choice(comps), "what": "shares",
                                          "value": rng.choice([1, 12345, 10 ** 7])}]}
         cfg["simulation"]["sessions"][0].setdefault("events", []).append("ISSUE")
-    if rng.random() < 0.45:
+    static = rng.random() < 0.2
+    if static:
+        # fundamentals that never move by themselves (the default of the sample configurations): only a shock
+        # changes them
+        for c in spots:
+            cfg[c]["fundamentalVolatility"] = 0.0
+            cfg[c]["fundamentalDrift"] = 0.0
+    if rng.random() < (0.45 if not static else 0.9):
         cfg["SHOCK"] = {"class": "FundamentalPriceShock", "target": rng.choice(comps),
                         "triggerTime": rng.randrange(cfg["simulation"]["sessions"][0]["iterationSteps"]),
                         "priceChangeRate": rng.choice([-0.4, 0.25]), "shockTimeLength": rng.choice([1, 3])}
@@ -254,6 +263,9 @@ def run_case(case, res):
         res.count("class/unequal_shares_run")
     if "SHOCK" in cfg:
         res.count("class/component_shock_run")
+        if all(cfg[c].get("fundamentalVolatility", 0.0) == 0.0 and cfg[c].get("fundamentalDrift", 0.0) == 0.0
+               for c in cfg["IDX"]["markets"]):
+            res.count("class/shock_on_component_of_an_index_with_static_fundamentals")
     if mon.moved:
         res.count("class/component_prices_moved_run")
     if "ISSUE" in cfg:
